@@ -186,6 +186,24 @@ def main():
             for t in range(N):
                 evs += [ev_update(t, sample_at(w, t), k + 1) for k in range(K)]
             rels = [{"rel": "same_on_from", "x": 1 + int(bad), "y": k + 1, "k": (h + 1 if kind == "past" else 1)} for k in range(1 + int(bad), K)]
+        if kind == "off" and not bad and rng.random() < 0.3:
+            # one more object that is first configured with half the sampling period and evaluated, then re-configured to the
+            # case's period and evaluated on the case's data: the bounds are resolved at every evaluate(), so the result is that
+            # of the other spellings (seeds C08-h, C01-h: sample counts memoised across evaluations)
+            half = period_ns // 2
+            hu = [u for u in ("s", "ms", "us", "ns") if half % 10 ** E[u] == 0 and half // 10 ** E[u] <= 100000][0]
+            default = rng.choice(["s", "ms"])
+            written, styles = write_ast(rng, phi, period_ns, default)
+            oR = dt_obj(phi, S, vs, text="out = " + to_text(written, S), written=written, unit=default, styles=styles, consts=[],
+                        units={"def": default, "pnum": half // 10 ** E[hu], "pden": 1, "punit": hu}, set_period=[half // 10 ** E[hu], hu, 0.1])
+            objs.append(oR)
+            kR = len(objs)
+            N0 = rng.choice([2, 3, 5])
+            pn2, pu2 = rng.choice([(pnum, punit)] + [(pnum * 10 ** (E[punit] - E[u]), u) for u in ("ms", "us") if E[u] < E[punit] and pnum * 10 ** (E[punit] - E[u]) <= 100000])
+            evs += [ev_parse(kR), ev_evaluate(range(N0), gen_trace(rng, vs, N0, S, lo=-6, hi=6), kR),
+                    {"o": kR, "a": "config", "set_period": [pn2, pu2, 0.1], "units": {"def": default, "pnum": pn2, "pden": 1, "punit": pu2}},
+                    ev_evaluate(range(N), w, kR)]
+            rels.append({"rel": "same_off", "x": 1, "y": kR})
         for o in objs:
             o["factory"] = fac
         cases.append(case(objs, evs, rels, kind=kind, bad=bad, skip=["evaluate.viol", "update.viol"], timeout=8))
